@@ -2,7 +2,7 @@
    A case is (chunks, observed); [observed] is what the implementation returned for
    concatStreamReader-style concatenation of the chunks, canonicalised by the harness:
    OVal v | OErr | OPanic.  Error messages are not compared (class only). *)
-From Eino Require Import Base.Util Model.Concat Model.ConcatMsg Model.ConcatOrder Model.ConcatUser Model.ConcatMsgMap Model.ConcatStream.
+From Eino Require Import Base.Util Model.Concat Model.ConcatMsg Model.ConcatOrder Model.ConcatUser Model.ConcatMsgMap Model.ConcatStream Model.ConcatDeep.
 
 (* the registry of application-registered concat functions: the ones the harness registers *)
 #[local] Existing Instance harness_user.
@@ -127,6 +127,40 @@ Definition kobs_eqb (a b : kobs) : bool :=
   | _, _ => false
   end.
 
+(* map chunks with messages, message lists and nested maps at any depth (Model/ConcatDeep.v) *)
+Fixpoint dval_eqb (fuel : nat) (a b : dval) : bool :=
+  match fuel with
+  | O => false
+  | S f =>
+    match a, b with
+    | DPtrNil, DPtrNil => true
+    | DMsg x, DMsg y => msg_eqb x y
+    | DList x, DList y => list_eqb (opt_eqb msg_eqb) x y
+    | DVal x, DVal y => obs_eqb (OVal x) (OVal y)
+    | DMap x, DMap y =>
+        let srt := sort_by (fun p q : string * dval => string_ltb (fst p) (fst q)) in
+        (fix go (l r : list (string * dval)) : bool :=
+           match l, r with
+           | [], [] => true
+           | (k, v) :: l', (k', v') :: r' => String.eqb k k' && dval_eqb f v v' && go l' r'
+           | _, _ => false
+           end) (srt x) (srt y)
+    | _, _ => false
+    end
+  end.
+Definition dmap_eqb (a b : list (string * dval)) : bool :=
+  dval_eqb (S (S (Nat.max (vdepth a) (vdepth b)))) (DMap a) (DMap b).
+Inductive dobs : Type := DOVal (m : list (string * dval)) | DOErr | DOPanic.
+Definition dobs_of (r : res (list (string * dval))) : dobs :=
+  match r with Ok v => DOVal v | Err _ => DOErr | Panic => DOPanic end.
+Definition dobs_eqb (a b : dobs) : bool :=
+  match a, b with
+  | DOVal v, DOVal v' => dmap_eqb v v'
+  | DOErr, DOErr => true
+  | DOPanic, DOPanic => true
+  | _, _ => false
+  end.
+
 Inductive ccase : Type :=
 | CaseGen (chunks : list cval) (o : obs)
 | CaseMsg (api : N) (chunks : list (option msg)) (o : mobs)
@@ -135,7 +169,8 @@ Inductive ccase : Type :=
 | CaseAny (chunks : list cval) (o : obs)    (* a stream of [any]: chunks of any dynamic type, nil included *)
 (* what the reader delivers, read errors included (Model/ConcatStream.v), through the stream-level entry points *)
 | CaseGenS (items : list (sitem cval)) (o : obs)
-| CaseMsgS (items : list (sitem (option msg))) (o : mobs).
+| CaseMsgS (items : list (sitem (option msg))) (o : mobs)
+| CaseDeep (chunks : list (list (string * dval))) (o : dobs).
 
 (* the same entry points with Go's map iteration made explicit (Model/ConcatOrder.v) and
    set to an order that differs from the one Model/Concat.v and Model/ConcatMsg.v use:
@@ -158,5 +193,6 @@ Definition bad (c : ccase) : bool :=
   | CaseAny chunks o => negb (obs_eqb (obs_of (concat_stream_any chunks)) o)
   | CaseGenS items o => negb (obs_eqb (obs_of (stream_entry concat_stream items)) o)
   | CaseMsgS items o => negb (mobs_eqb (mobs_of (stream_entry msg_stream items)) o)
+  | CaseDeep chunks o => negb (dobs_eqb (dobs_of (dmap_stream chunks)) o)
   end.
 Definition mismatches (cs : list ccase) : list nat := mismatches_from bad 0 cs.
